@@ -61,7 +61,7 @@ pub mod shadow_std {
     }
 
     pub mod process {
-        pub use super::super::simenv::exit;
+        pub use super::super::simenv::{exit, id};
         pub use super::super::simproc::{Child, ChildStderr, ChildStdin, ChildStdout, Command, Stdio};
         pub use ::std::process::*;
     }
@@ -2236,6 +2236,13 @@ pub mod simenv {
     pub fn temp_dir() -> super::OutPathBuf {
         std::path::PathBuf::from("/tmp").into()
     }
+    /// `process::id()`: every simulated execution is a process of its own, with its own id (the
+    /// simulator's real pid would be the same for every run of a session and would tell a program
+    /// that probes `/proc/<pid>` or compares pid files that its crashed predecessor is still alive)
+    pub fn id() -> u32 {
+        world::with(|w| w.pid)
+    }
+
     /// `process::exit`: the process image is gone at this instant. Whatever is still buffered in
     /// user space (a `BufWriter` that was not flushed) is lost, exactly as in reality: the output
     /// is frozen *before* the unwinding that ends the simulated run drops (and flushes) anything.
